@@ -988,7 +988,18 @@ fn format_subexpression(
             output.push(')');
         }
         ast::Expression::Member(expr, name) => {
+            // An integer literal directly followed by a period would be read as the start of a float literal
+            let object_is_integer = matches!(
+                expr.node,
+                ast::Expression::Literal(ast::Literal::IntUntyped(_))
+            );
+            if object_is_integer {
+                output.push('(');
+            }
             format_subexpression(expr, prec, OperatorSide::Left, output, context)?;
+            if object_is_integer {
+                output.push(')');
+            }
             output.push('.');
             format_scoped_identifier(name, output, context)?;
         }
